@@ -227,6 +227,10 @@ def main():
         elif x == "--out": out = a.pop(0)
     out = out or os.path.join("/verif/mutation", rel.replace("/", "_") + ".jsonl")
     os.makedirs(os.path.dirname(out), exist_ok=True)
+    if os.path.exists(out + ".lock"):
+        print(f"{rel}: another scan has taken this file ({out}.lock): skipped", flush=True)
+        return
+    open(out + ".lock", "w").close()
     src = open(os.path.join(REPO, rel)).read()
     tree = ast.parse(src)
     v = Sites(funcs)
